@@ -405,7 +405,79 @@ def standin_conditions_roundtrip(tier, seed):
                 bound="23 conditions (key / bit-mask with indices -2..2, masks, sympy, pathed key) x 2 controlled operations", cases=cases, distinct=cases, failures=len(fails),
                 exhaustive=True, _fails=uniq[:3])
 standin_conditions_roundtrip.prop = "C16"
-STANDINS = [standin_bits_native, standin_circuit_roundtrip, standin_results_roundtrip, standin_sweeps_roundtrip, standin_run_contexts, standin_conditions_roundtrip]
+
+def standin_device_specs(tier, seed):
+    """device specifications: spec -> GridDevice -> spec -> GridDevice is the identity on qubits (isolated ones included), pairs and gates, and
+    the specification lists exactly the qubits / pairs the device object validates"""
+    import cirq
+    import cirq_google
+    from cirq_google.api import v2
+
+    rng = random.Random(seed + 3)
+    cases, fails = 0, []
+    gate_fields = ["cz", "sqrt_iswap", "phased_xz", "virtual_zpow", "physical_zpow", "meas", "wait", "syc", "inv_sqrt_iswap", "coupler_pulse", "fsim_via_model", "cz_pow_gate", "reset"]
+    for it in range(25 if tier == "quick" else 300):
+        grid = [cirq.GridQubit(r, c) for r in range(rng.randrange(1, 4)) for c in range(rng.randrange(1, 4))]
+        qubits = rng.sample(grid, rng.randrange(1, len(grid) + 1))
+        adjacent = [(a, b) for a in qubits for b in qubits if a < b and a.is_adjacent(b)]
+        pairs = rng.sample(adjacent, rng.randrange(0, len(adjacent) + 1)) if adjacent else []   # qubits outside every pair are isolated
+        spec = v2.device_pb2.DeviceSpecification()
+        spec.valid_qubits.extend(sorted(v2.qubit_to_proto_id(x) for x in qubits))
+        tgt = spec.valid_targets.add()
+        tgt.name = "2_qubit_targets"
+        tgt.target_ordering = v2.device_pb2.TargetSet.SYMMETRIC
+        for a, b in pairs:
+            t = tgt.targets.add()
+            t.ids.extend([v2.qubit_to_proto_id(a), v2.qubit_to_proto_id(b)])
+        chosen = [f for f in gate_fields if rng.random() < 0.6 and hasattr(v2.device_pb2.GateSpecification(), f)] or ["phased_xz"]
+        for f in chosen:
+            g = spec.valid_gates.add()
+            getattr(g, f).SetInParent()
+            if rng.random() < 0.5:
+                g.gate_duration_picos = rng.choice([0, 1000, 25000])
+        try:
+            dev = cirq_google.GridDevice.from_proto(spec)
+        except ValueError:
+            continue
+        cases += 1
+        args = dict(specification=str(spec)[:1500])
+        try:
+            spec2 = dev.to_proto()
+            dev2 = cirq_google.GridDevice.from_proto(spec2)
+        except Exception as ex:
+            fails.append(dict(args=args, failed="device-spec-raised", clause=f"to_proto / from_proto of a device built from a valid specification raised {ex!r}"))
+            continue
+        ids = lambda sp: sorted(sp.valid_qubits)
+        pairset = lambda sp: sorted(tuple(sorted(t.ids)) for ts in sp.valid_targets for t in ts.targets if len(t.ids) == 2)
+        gates = lambda sp: sorted(g.WhichOneof("gate") for g in sp.valid_gates)
+        if ids(spec2) != ids(spec) or pairset(spec2) != pairset(spec) or gates(spec2) != gates(spec):
+            what = "qubits" if ids(spec2) != ids(spec) else "pairs" if pairset(spec2) != pairset(spec) else "gates"
+            fails.append(dict(args=dict(args, written=str(spec2)[:800]), failed="device-spec-roundtrip", clause=f"the specification a device writes differs in its {what} from the one it was built from: {ids(spec2) if what == 'qubits' else pairset(spec2) if what == 'pairs' else gates(spec2)}"))
+            continue
+        if dev2 != dev or dev2.metadata.qubit_set != dev.metadata.qubit_set or set(dev2.metadata.qubit_pairs) != set(dev.metadata.qubit_pairs):
+            fails.append(dict(args=args, failed="device-spec-roundtrip", clause="the device rebuilt from its own specification differs from the device"))
+            continue
+        # the specification describes exactly what the device validates
+        if dev.metadata.qubit_set != frozenset(qubits) or {frozenset(p) for p in dev.metadata.qubit_pairs} != {frozenset(p) for p in pairs}:
+            fails.append(dict(args=args, failed="device-spec-meaning", clause="the device's qubits / pairs are not those of the specification"))
+            continue
+        probe1 = cirq.PhasedXZGate(x_exponent=0.3, z_exponent=0.1, axis_phase_exponent=0.2)
+        if "phased_xz" in chosen:
+            for x in grid:
+                ok = True
+                try:
+                    dev.validate_operation(probe1.on(x))
+                except ValueError:
+                    ok = False
+                if ok != (x in qubits):
+                    fails.append(dict(args=dict(args, qubit=repr(x)), failed="device-spec-meaning", clause=f"validate_operation on {x!r}: accepted={ok}, listed in the specification={x in qubits}"))
+                    break
+    return dict(function="cirq-google/cirq_google/devices/grid_device.py:GridDevice.from_proto/to_proto", case="device-specs",
+                bound="seeded specifications: 1-9 grid qubits (some in no pair), random subsets of the adjacent pairs, random gate sets with / without durations",
+                cases=cases, distinct=cases, failures=len(fails), exhaustive=False, _fails=fails[:3])
+standin_device_specs.prop = "C16"
+
+STANDINS = [standin_bits_native, standin_circuit_roundtrip, standin_results_roundtrip, standin_sweeps_roundtrip, standin_run_contexts, standin_conditions_roundtrip, standin_device_specs]
 
 NOT_COVERED = [
     "circuit/sweep/result/device protos themselves (protobuf reflection, float32 rounding): bounded round trips only; device specifications not exercised",
